@@ -1770,3 +1770,143 @@ Print Assumptions C02_ilu0_symmetry_condition_blocks.
    scaling commutes with A, for scale = false it is a polynomial in the hermitian A (coefficients embedded reals).
    (c) solve_symH for mk_solve_block stays a hypothesis when direct_coarse = true.
    On the implementation the full statement is CHECKED exactly for all five smoothers (tools/props/c02_block.py). *)
+
+(* ================================================================== *)
+(* A3 for the Chebyshev smoother (WZ3).  AmgCycleSymCheb.v: for EVERY symmetric matrix, every degree, every (lower,
+   higher), with or without diagonal scaling, the chebyshev sweep is consistent, sweep (f, x) = x + N (f - A x), and
+   N = sweep (., 0) is self-adjoint, <N f, g> = <f, N g> -- over any commutative ring with trivial conjugation and WITHOUT
+   any hypothesis on the coefficients (double induction over the three-term recurrence: X_k (A M g) = M A X_k g, then
+   <X_k f, g> = <f, X_k g>).  AmgCycleSymChebBuilt.v: the commutative ring read as an instance of the non-commutative
+   development, for hierarchies of amg_init with ANY smoother constructor (C02_apply_symmetric_built_any_smoother), hence
+   for chebyshev with no smoother hypothesis left. *)
+From Amgcl Require Import AmgCycleSymCheb AmgCycleSymChebBuilt.
+
+Theorem C02_chebyshev_consistent_self_adjoint {S : Scalar} (Srt : Sring S) (Seqb : seqb_spec S)
+  degree (lower higher : S) scale (A : crs S) :
+  wf A = true -> sym_mat (nrows A) A ->
+  sweep_cons (nrows A) A (fst (cheby_sweeps degree lower higher scale A)) /\
+  sweep_cons (nrows A) A (snd (cheby_sweeps degree lower higher scale A)) /\
+  sweep_adj (nrows A) (fst (cheby_sweeps degree lower higher scale A)) (snd (cheby_sweeps degree lower higher scale A)).
+Proof. exact (cheby_sweeps_sym Srt Seqb degree lower higher scale A). Qed.
+Print Assumptions C02_chebyshev_consistent_self_adjoint.
+
+(* the good5 side condition of C02_apply_symmetric_blocks_full for chebyshev, discharged when the values commute *)
+Theorem C02_chebyshev_good5_commutative {S : Scalar} (Srt : Sring S) (Seqb : seqb_spec S)
+  (sadj_id : forall a : S, sadj a = a) degree (lower higher : S) scale (A : crs S) :
+  wf A = true -> herm_mat (nrows A) A -> good5 (R5Cheby degree lower higher scale) A.
+Proof. exact (cheby_good5_comm Srt Seqb sadj_id degree lower higher scale A). Qed.
+Print Assumptions C02_chebyshev_good5_commutative.
+
+(* hierarchies of amg_init, ANY smoother constructor mk_relax whose (pre, post) sweeps are consistent and mutually adjoint
+   on the symmetric level matrices that satisfy `good`, exact coarse solve *)
+Theorem C02_apply_symmetric_built_any_smoother {S : Scalar} (Srt : Sring S) (Seqb : seqb_spec S)
+  (sadj_id : forall a : S, sadj a = a) (mk_relax : crs S -> @sweep S * @sweep S)
+  (relax_ok : forall A, sweep_ok (nrows A) (fst (mk_relax A)) /\ sweep_ok (nrows A) (snd (mk_relax A)))
+  (good : crs S -> Prop)
+  (relax_sym : forall A, wf A = true -> sym_mat (nrows A) A -> good A ->
+     sweep_cons (nrows A) A (fst (mk_relax A)) /\ sweep_cons (nrows A) A (snd (mk_relax A)) /\
+     sweep_adj (nrows A) (fst (mk_relax A)) (snd (mk_relax A)))
+  ce dc ml sc ts (M : crs S) k nc pc :
+  wf M = true -> sym_mat (nrows M) M -> ts_sym (nrows M) ts ->
+  (forall A, In (LSolve A) (amg_init ce dc ml (coarse_op_of sc) ts M) -> solve_sym (nrows A) (mk_solve_exact A)) ->
+  (forall l, In l (amg_init ce dc ml (coarse_op_of sc) ts M) -> good (ld_A l)) ->
+  let lvls := map (instantiate mk_relax mk_solve_exact) (amg_init ce dc ml (coarse_op_of sc) ts M) in
+  (pc = 0 \/ nosolve_top lvls) ->
+  forall scr1 scr2 f g x1 x2,
+  scratch_wf lvls scr1 -> scratch_wf lvls scr2 ->
+  length f = nrows M -> length g = nrows M -> length x1 = nrows M -> length x2 = nrows M ->
+  dot (fst (apply k k nc (Datatypes.S pc) lvls scr1 f x1)) g =
+  dot f (fst (apply k k nc (Datatypes.S pc) lvls scr2 g x2)).
+Proof. exact (built_apply_sym_gen Srt Seqb sadj_id mk_relax relax_ok good relax_sym ce dc ml sc ts M k nc pc). Qed.
+Print Assumptions C02_apply_symmetric_built_any_smoother.
+
+(* chebyshev on every level: npre = npost = k, any ncycle, pre_cycles = pc + 1; the only hypothesis besides the symmetry
+   of the input is the symmetry of the coarse solver when direct_coarse = true *)
+Theorem C02_apply_symmetric_chebyshev {S : Scalar} (Srt : Sring S) (Seqb : seqb_spec S)
+  (sadj_id : forall a : S, sadj a = a) degree (lower higher : S) scale ce dc ml sc ts (M : crs S) k nc pc :
+  wf M = true -> sym_mat (nrows M) M -> ts_sym (nrows M) ts ->
+  (forall A, In (LSolve A) (amg_init ce dc ml (coarse_op_of sc) ts M) -> solve_sym (nrows A) (mk_solve_exact A)) ->
+  let lvls := map (instantiate (mk_relax5 (R5Cheby degree lower higher scale)) mk_solve_exact)
+                  (amg_init ce dc ml (coarse_op_of sc) ts M) in
+  (pc = 0 \/ nosolve_top lvls) ->
+  forall scr1 scr2 f g x1 x2,
+  scratch_wf lvls scr1 -> scratch_wf lvls scr2 ->
+  length f = nrows M -> length g = nrows M -> length x1 = nrows M -> length x2 = nrows M ->
+  dot (fst (apply k k nc (Datatypes.S pc) lvls scr1 f x1)) g =
+  dot f (fst (apply k k nc (Datatypes.S pc) lvls scr2 g x2)).
+Proof. exact (built_apply_sym_cheby Srt Seqb sadj_id degree lower higher scale ce dc ml sc ts M k nc pc). Qed.
+Print Assumptions C02_apply_symmetric_chebyshev.
+
+(* direct_coarse = false: no hypothesis besides the symmetry of the input *)
+Theorem C02_apply_symmetric_chebyshev_smoother_coarse {S : Scalar} (Srt : Sring S) (Seqb : seqb_spec S)
+  (sadj_id : forall a : S, sadj a = a) degree (lower higher : S) scale ce ml sc ts (M : crs S) k nc pc :
+  wf M = true -> sym_mat (nrows M) M -> ts_sym (nrows M) ts ->
+  let lvls := map (instantiate (mk_relax5 (R5Cheby degree lower higher scale)) mk_solve_exact)
+                  (amg_init ce false ml (coarse_op_of sc) ts M) in
+  forall scr1 scr2 f g x1 x2,
+  scratch_wf lvls scr1 -> scratch_wf lvls scr2 ->
+  length f = nrows M -> length g = nrows M -> length x1 = nrows M -> length x2 = nrows M ->
+  dot (fst (apply k k nc (Datatypes.S pc) lvls scr1 f x1)) g =
+  dot f (fst (apply k k nc (Datatypes.S pc) lvls scr2 g x2)).
+Proof. exact (built_apply_sym_cheby_smoother_coarse Srt Seqb sadj_id degree lower higher scale ce ml sc ts M k nc pc). Qed.
+Print Assumptions C02_apply_symmetric_chebyshev_smoother_coarse.
+
+(* field, exact coarse solve (Gauss-Jordan model): the solver hypothesis is "solvable and symmetric" *)
+Theorem C02_apply_symmetric_chebyshev_exact {S : Scalar} (Sft : Sfield S) (Seqb : seqb_spec S)
+  (sadj_id : forall a : S, sadj a = a) degree (lower higher : S) scale ce dc ml sc ts (M : crs S) k nc pc :
+  wf M = true -> sym_mat (nrows M) M -> ts_sym (nrows M) ts ->
+  (forall A, In (LSolve A) (amg_init ce dc ml (coarse_op_of sc) ts M) -> solvable A = true /\ sym_mat (nrows A) A) ->
+  let lvls := map (instantiate (mk_relax5 (R5Cheby degree lower higher scale)) mk_solve_exact)
+                  (amg_init ce dc ml (coarse_op_of sc) ts M) in
+  (pc = 0 \/ nosolve_top lvls) ->
+  forall scr1 scr2 f g x1 x2,
+  scratch_wf lvls scr1 -> scratch_wf lvls scr2 ->
+  length f = nrows M -> length g = nrows M -> length x1 = nrows M -> length x2 = nrows M ->
+  dot (fst (apply k k nc (Datatypes.S pc) lvls scr1 f x1)) g =
+  dot f (fst (apply k k nc (Datatypes.S pc) lvls scr2 g x2)).
+Proof. exact (built_apply_sym_cheby_exact Sft Seqb sadj_id degree lower higher scale ce dc ml sc ts M k nc pc). Qed.
+Print Assumptions C02_apply_symmetric_chebyshev_exact.
+
+Theorem C02_apply_symmetric_chebyshev_Qc degree (lower higher : QcS) scale ce dc ml sc ts (M : crs QcS) k nc pc :
+  wf M = true -> sym_mat (nrows M) M -> ts_sym (nrows M) ts ->
+  (forall A, In (LSolve A) (amg_init ce dc ml (coarse_op_of sc) ts M) -> solvable A = true /\ sym_mat (nrows A) A) ->
+  let lvls := map (instantiate (mk_relax5 (R5Cheby degree lower higher scale)) mk_solve_exact)
+                  (amg_init ce dc ml (coarse_op_of sc) ts M) in
+  (pc = 0 \/ nosolve_top lvls) ->
+  forall scr1 scr2 f g x1 x2,
+  scratch_wf lvls scr1 -> scratch_wf lvls scr2 ->
+  length f = nrows M -> length g = nrows M -> length x1 = nrows M -> length x2 = nrows M ->
+  dot (fst (apply k k nc (Datatypes.S pc) lvls scr1 f x1)) g =
+  dot f (fst (apply k k nc (Datatypes.S pc) lvls scr2 g x2)).
+Proof.
+  exact (built_apply_sym_cheby_exact QcS_field QcS_eqb (fun _ => eq_refl) degree lower higher scale ce dc ml sc ts M k nc pc).
+Qed.
+Print Assumptions C02_apply_symmetric_chebyshev_Qc.
+
+(* non-vacuity on the concrete 3-level hierarchy of AmgExampleData.v (1D Laplacian n = 4, two pairwise aggregations),
+   chebyshev of degree 2 on [rho/30, rho] with and without diagonal scaling (the amgcl defaults: degree 5, lower 1/30, higher 1):
+   the hypotheses of C02_apply_symmetric_chebyshev_exact hold for the hierarchy that ends in the direct solver and for the
+   one smoothed on the 1 x 1 level; the W(1,1)-cycle (ncycle = 2) gives <B f, g> = <f, B g>, B f <> 0, and the two
+   hierarchies give different operators *)
+Example C02_example_chebyshev_symmetric :
+  let mk := fun scale => map (instantiate (mk_relax5 (R5Cheby 2 (qc 1 30) (exq 1) scale)) (@mk_solve_exact QcS)) in
+  let z := [exq 0; exq 0; exq 0; exq 0] in
+  let B := fun scale H f => fst (apply 1 1 2 1 (mk scale H) (map (@fresh_scratch QcS) H) f z) in
+  wf exM = true /\ sym_mat (nrows exM) exM /\ ts_sym (nrows exM) exTs /\
+  (forall A, In (LSolve A) exH -> solvable A = true /\ sym_mat (nrows A) A) /\
+  nosolve_top (mk true exH) /\ nosolve_top (mk true exH') /\
+  scratch_wf (mk true exH) (map (@fresh_scratch QcS) exH) /\
+  seqb (dot (B true exH exF) exG) (dot exF (B true exH exG)) = true /\
+  seqb (dot (B true exH' exF) exG) (dot exF (B true exH' exG)) = true /\
+  seqb (dot (B false exH' exF) exG) (dot exF (B false exH' exG)) = true /\
+  vec_eqb (B true exH exF) z = false /\ vec_eqb (B true exH exF) (B true exH' exF) = false.
+Proof.
+  cbv zeta.
+  split; [vm_compute; reflexivity|].
+  split; [apply (sym_matb_ok QcS_eqb); vm_compute; reflexivity|].
+  split; [apply (ts_symb_ok QcS_eqb); vm_compute; reflexivity|].
+  split; [apply (solve_sym_check_ok QcS_eqb); vm_compute; reflexivity|].
+  split; [exact I|]. split; [exact I|].
+  split; [apply fresh_scratch_wf|].
+  vm_compute. repeat split.
+Qed.
